@@ -37,6 +37,7 @@ class Driver:
         self.expected_stream: t.List[tuple] = []  # abstract messages of accepted sends, in call order
         self.closed_seen = False
         self.ids_returned: t.List[int] = []
+        self.dead = False  # set when the session accepted a call the harness built to fail: model and session are out of step
 
     # ------------------------------------------------------------------ call execution
     def _call(self, action):
@@ -53,7 +54,7 @@ class Driver:
             return s.search_request(base, scope, deref, size, tm, to, av.b_filter(flt) if flt is not None else None, list(attrs) if attrs is not None else None, controls=_ctl(ctl))
         if k == "extended":
             _, name, value, ctl = action
-            return s.extended_request(name, value, controls=_ctl(ctl))
+            return s.extended_request(av.enum_name(name, self.n), value, controls=_ctl(ctl))
         if k == "unbind":
             return s.unbind()
         if k in ("bind_response", "extended_response", "entry", "reference", "done"):
@@ -64,7 +65,7 @@ class Driver:
             return s.bind_response(mid, sasl_creds=sasl, result_code=sl.LDAPResultCode(code), matched_dn=matched, diagnostics_message=diag, controls=_ctl(ctl))
         if k == "extended_response":
             _, mid, name, value, code, matched, diag, ctl = action
-            return s.extended_response(mid, name=name, value=value, result_code=sl.LDAPResultCode(code), matched_dn=matched, diagnostics_message=diag, controls=_ctl(ctl))
+            return s.extended_response(mid, name=av.enum_name(name, self.n), value=value, result_code=sl.LDAPResultCode(code), matched_dn=matched, diagnostics_message=diag, controls=_ctl(ctl))
         if k == "entry":
             _, mid, name, attrs, ctl = action
             return s.search_result_entry(mid, name, [sl.PartialAttribute(n, list(v)) for n, v in attrs], controls=_ctl(ctl))
@@ -125,6 +126,10 @@ class Driver:
         s = self.sess
         if k == "drain":
             return self._drain_action(action[1])
+        if self.dead:
+            return vio
+        if k == "failing":
+            return self._failing_action(action[1])
         model_was_closed = self.model.state == CLOSED
         state_before = s.state.name
         pend_before = None
@@ -211,6 +216,58 @@ class Driver:
                 vio.append((f"closed-not-final:accepted:{tag}", f"{where} succeeded on a CLOSED session"))
             if state_after != "CLOSED":
                 vio.append((f"closed-not-final:state:{tag}", f"{where} moved a CLOSED session to {state_after}"))
+        if state_after == "CLOSED":
+            self.closed_seen = True
+        return vio
+
+    def _failing_action(self, inner):
+        """A send call that cannot be encoded (a lone surrogate in one text field): whatever exception class it raises
+        (type-invalid input, DESIGN 7.10), it is a call that sent nothing - no bytes, no state change (BEFORE_OPEN ->
+        OPENED tolerated, DESIGN 7.4), no change to the operations in progress (the model is not stepped)."""
+        s = self.sess
+        vio = []
+        k = inner[0]
+        state_before = s.state.name
+        pend_before = None
+        if self.mode == "drain":
+            left = s.data_to_send()
+            if left:
+                vio.append(("bytes-appeared-between-calls", f"{len(left)} bytes queued outside any call"))
+                self.out_stream += left
+        else:
+            pend_before = self._pending_len()
+        try:
+            self._call(inner)
+        except Exception as e:
+            outcome = type(e).__name__
+        else:
+            self.dead = True
+            self.trace.append({"n": self.n, "side": self.role, "op": "failing:" + k, "outcome": "accepted", "state_before": state_before,
+                               "state_after": s.state.name})
+            return vio
+        state_after = s.state.name
+        tag = f"{self.role}.{k}"
+        where = f"[{self.role} call #{self.n} {k} with unencodable text in {state_before}]"
+        self.trace.append({"n": self.n, "side": self.role, "op": "failing:" + k, "outcome": "raised:" + outcome, "state_before": state_before,
+                           "state_after": state_after})
+        if state_after != state_before:
+            if state_before == "BEFORE_OPEN" and state_after == "OPENED":
+                if self.model.state == "BEFORE_OPEN":
+                    self.model.state = "OPENED"
+            else:
+                vio.append((f"state:{tag}:{state_before}->{state_after}:after-failed-send", f"{where} raised {outcome}, sent nothing, yet moved the session to {state_after}"))
+        if self.mode == "drain":
+            drained = s.data_to_send()
+            self.out_stream += drained
+            if drained:
+                vio.append((f"rejected-call-queued-bytes:{tag}:failed-send", f"{where} raised {outcome} but queued {len(drained)} bytes: {drained[:40].hex()}"))
+                self.expected_stream.append(None)
+        else:
+            pend_after = self._pending_len()
+            if pend_before is not None and pend_after is not None and pend_after != pend_before:
+                vio.append((f"rejected-call-queued-bytes:{tag}:failed-send", f"{where} raised {outcome} but the pending output grew by {pend_after - pend_before} bytes"))
+        if self.closed_seen and state_after != "CLOSED":
+            vio.append((f"closed-not-final:state:{tag}", f"{where} moved a CLOSED session to {state_after}"))
         if state_after == "CLOSED":
             self.closed_seen = True
         return vio
